@@ -12,7 +12,7 @@ import itertools
 import json
 from fractions import Fraction as F
 
-from vlib import core
+from vlib import core, crshist
 from vlib.core import cbool, clist, copt, cq, ctuple, cz
 
 ID = "C16"
@@ -598,6 +598,75 @@ def p_enclosing(base, crs, shape, pix_pts, region_crs=None):
     return (not bad), "; ".join(bad)
 
 
+def p_enclosing_xcrs(base, gcrs, shape, kind, coords, rcrs):
+    """GeoBox(shape, Affine(*base), gcrs).enclosing(region given in ANOTHER CRS rcrs): on the source grid, covers the
+    region and exceeds it by < 1 pixel per side.  Reference: the region's vertices mapped with a pyproj.Transformer
+    (always_xy=True) that pyproj builds from the two specs, then the exact inverse of the affine (Fractions); 1e-6
+    pixel slack for the projection.  kind: 'box' (polygon from two corners), 'polygon' (vertex list), 'bbox'
+    (BoundingBox from two corners).  base may be any float affine (north-up, mirrored, rotated)."""
+    import pyproj
+    import shapely
+    from affine import Affine
+    from odc.geo import geom
+    from odc.geo.crs import CRS
+    from odc.geo.geobox import GeoBox
+    rc = CRS(rcrs)
+    G = GeoBox(tuple(shape), Affine(*[float(v) for v in base]), CRS(gcrs))
+    if kind == "polygon":
+        region = geom.polygon([tuple(c) for c in coords] + [tuple(coords[0])], rc)
+        verts = shapely.get_coordinates(region.geom).tolist()
+    else:
+        (x0, y0), (x1, y1) = coords
+        x0, x1, y0, y1 = min(x0, x1), max(x0, x1), min(y0, y1), max(y0, y1)
+        region = geom.box(x0, y0, x1, y1, rc) if kind == "box" else geom.BoundingBox(x0, y0, x1, y1, rc)
+        verts = [(x0, y0), (x0, y1), (x1, y1), (x1, y0)]
+    tr = pyproj.Transformer.from_crs(pyproj.CRS.from_user_input(rcrs), pyproj.CRS.from_user_input(gcrs), always_xy=True)
+    fb = tuple(F(float(v)) for v in base)
+    inv = ainv(fb)
+    pix = []
+    for x, y in verts:
+        X, Y = tr.transform(x, y)
+        pix.append(aapply(inv, (F(X), F(Y))))
+    E = G.enclosing(region)
+    bad = []
+    T = amul(inv, aff_of(E.affine))
+    tx, ty = round(T[2]), round(T[5])
+    lin = max(abs(T[0] - 1), abs(T[1]), abs(T[3]), abs(T[4] - 1))
+    if lin > F(1, 10 ** 9) or abs(T[2] - tx) > F(1, 10 ** 6) or abs(T[5] - ty) > F(1, 10 ** 6) or E.crs != G.crs:
+        bad.append(f"not on the source grid: relative transform {tuple(float(v) for v in T)}, crs {E.crs}")
+    slack = F(1, 10 ** 6)
+    nx, ny = E.shape.x, E.shape.y
+    for lo, n, vals, ax in [(tx, nx, [q[0] for q in pix], "x"), (ty, ny, [q[1] for q in pix], "y")]:
+        mn, mx = min(vals), max(vals)
+        if not (lo <= mn + slack and mx - slack <= lo + n):
+            bad.append(f"axis {ax}: pixels [{lo}, {lo + n}] do not cover the region [{float(mn):.4f}, {float(mx):.4f}]")
+        elif not (mn - lo < 1 + slack and (lo + n - mx < 1 + slack or n == 1)):
+            bad.append(f"axis {ax}: pixels [{lo}, {lo + n}] exceed the region [{float(mn):.4f}, {float(mx):.4f}] by a pixel or more")
+        if n < 1:
+            bad.append(f"axis {ax}: size {n}")
+    return (not bad), "; ".join(bad)
+
+
+def p_enclosing_many_crs(gcrs, n, salt):
+    """a process that handles regions in n distinct custom CRSs one after the other (each built, used once with the
+    same GeoBox grid and dropped - more than any plausible cache bound): every enclosing() must still be on the grid,
+    cover its region and be tight.  Self-contained history; each step judged by p_enclosing_xcrs (pyproj directly)."""
+    import gc
+    import random
+    rng = random.Random(int(salt))
+    for i in range(int(n)):
+        lon0 = 141.125 + ((i * 7 + int(salt) * 3) % 97) / 8
+        custom = (f"+proj=tmerc +lat_0={-38 + (i % 9)} +lon_0={lon0} +k=0.9996 +x_0={500000 + i} +y_0={int(salt)} "
+                  "+ellps=GRS80 +units=m +no_defs")
+        args = xcrs_case(rng, gcrs, custom, custom=True)
+        ok, detail = p_enclosing_xcrs(*args)
+        if not ok:
+            return False, f"region CRS #{i} {custom!r}: enclosing_xcrs{core.short(args, 200)}: {detail}"
+        if i % 50 == 49:
+            gc.collect()
+    return True, ""
+
+
 def p_snap(base, crs, p, q):
     """self = base*T(p), other = base*T(q): result moved by <= 1/2 pixel and onto other's grid"""
     from odc.geo.geobox import pixel_translation
@@ -712,7 +781,96 @@ def p_float_family(angle, res, off, members):
 
 
 PREDICATES = {"family": p_family, "enclosing": p_enclosing, "snap": p_snap, "reject": p_reject, "bbox": p_bbox,
-              "float_family": p_float_family}
+              "float_family": p_float_family, "enclosing_xcrs": p_enclosing_xcrs,
+              "enclosing_many_crs": p_enclosing_many_crs}
+PREDICATES["after_history"] = crshist.after_history(PREDICATES)
+
+
+# CRS alphabet of the cross-CRS enclosing block: used nowhere else in this check, so that a process-history
+# perturbation really is the first thing the process does with these pairs
+# one disjoint alphabet per history, so that what one perturbation did to a CRS pair cannot leak into the cases
+# of the next one (a replay names exactly one history and must reproduce in a fresh process)
+XCRS_ALPHABETS = [
+    (["EPSG:3577", "EPSG:32755"], ["EPSG:4283", "EPSG:4326"]),
+    (["EPSG:6933", "EPSG:28355"], ["EPSG:7844", "EPSG:4283"]),
+    (["EPSG:32754", "EPSG:3112"], ["EPSG:4326", "EPSG:7844"]),
+    (["EPSG:7855", "EPSG:3111"], ["EPSG:4283", "EPSG:4326", "EPSG:7844"]),
+]
+
+
+def xcrs_case(rng, gcrs, rcrs, custom=False):
+    """a GeoBox (north-up / mirrored / rotated base) near a region given in rcrs (box, triangle, BoundingBox)"""
+    import math
+
+    import pyproj
+    if custom:   # metres around the false origin of a transverse Mercator strip
+        cx, cy, d = 500000.0 + rng.uniform(-3e4, 3e4), rng.uniform(-3e4, 3e4), 2.0e4
+    else:        # degrees, south-east Australia
+        cx, cy, d = rng.uniform(141, 149), rng.uniform(-38, -31), 0.2
+    kind = rng.choice(["box", "polygon", "bbox"])
+    if kind == "polygon":
+        coords = [[cx - d * rng.uniform(0.2, 1), cy + d * rng.uniform(0.2, 1)], [cx + d * rng.uniform(0.2, 1), cy + d * rng.uniform(0, 1)],
+                  [cx + d * rng.uniform(-0.3, 0.3), cy - d * rng.uniform(0.2, 1)]]
+    else:
+        coords = [[cx - d * rng.uniform(0.1, 1), cy - d * rng.uniform(0.1, 1)], [cx + d * rng.uniform(0.1, 1), cy + d * rng.uniform(0.1, 1)]]
+    tr = pyproj.Transformer.from_crs(pyproj.CRS.from_user_input(rcrs), pyproj.CRS.from_user_input(gcrs), always_xy=True)
+    X, Y = tr.transform(cx, cy)
+    res = rng.choice([64.0, 100.0, 250.0, 30.0])
+    if pyproj.CRS.from_user_input(gcrs).is_geographic:
+        res = rng.choice([2.0 ** -10, 2.0 ** -9, 0.001])
+    ox, oy = round(X / res) * res - 40 * res, round(Y / res) * res + 40 * res
+    orient = rng.choice(["north-up", "mirrored", "rotated"])
+    if orient == "north-up":
+        base = [res, 0.0, ox, 0.0, -res, oy]
+    elif orient == "mirrored":
+        base = [-res, 0.0, ox + 80 * res, 0.0, res, oy - 80 * res]
+    else:
+        a = math.radians(rng.choice([30.0, 17.5, -60.0]))
+        base = [res * math.cos(a), res * math.sin(a), ox, res * math.sin(a), -res * math.cos(a), oy]
+    return [base, gcrs, [rng.randint(20, 90), rng.randint(20, 90)], kind, coords, rcrs]
+
+
+def xcrs_search(out, tier, rng, run, found):
+    """cross-CRS enclosing judged with pyproj directly: fresh, and after each process-history perturbation"""
+    n = 6 if tier == "quick" else 40
+    for _ in range(n):
+        run("enclosing_xcrs", *xcrs_case(rng, rng.choice(["EPSG:32633", "EPSG:3857"]), "EPSG:4326"))
+    # more region CRSs than any plausible cache bound, one after the other (self-contained history)
+    run("enclosing_many_crs", "EPSG:28356", 170 if tier == "quick" else 400, rng.randrange(1000))
+
+    def run_after(hist, specs, name, *args):
+        try:
+            ok, detail = PREDICATES[name](*args)
+        except Exception as e:  # noqa: BLE001
+            ok, detail = False, f"raised {type(e).__name__}: {e}"
+        out.count("predicate:after_history:" + "+".join(hist) + ":" + name)
+        out.case(("after", hist, name, json.dumps(args, default=str)), True)
+        key = "after_history:" + "+".join(hist)
+        if not ok and key not in found:
+            found[key] = True
+            out.violation(f"c16:{key}", f"after {list(hist)}: {name}{core.short(args, 300)}: {detail}",
+                          {"predicate": "after_history", "args": [list(hist), list(specs), name, list(args)], "observed": detail})
+
+    for hi, hist in enumerate((("authority-order-first",), ("queries-first",), ("churn",), ("authority-order-first", "queries-first", "churn"))):
+        gspecs, rspecs = XCRS_ALPHABETS[hi]
+        specs = gspecs + rspecs
+        # all cases are generated BEFORE the perturbation: nothing (in particular no pyproj object) is created between
+        # the history and the first CRS the implementation builds, exactly as in the replay of a single case
+        cases = []
+        if "churn" in hist:
+            # regions in custom CRSs that are built only after many CRSs were created and dropped; one GeoBox CRS for
+            # all of them, first used after the churn
+            for k in range(n + 6):
+                custom = (f"+proj=tmerc +lat_0={-36 + k % 5} +lon_0={143.25 + k + hi / 4} +k=0.9996 +x_0=500000 +y_0=0 "
+                          "+ellps=GRS80 +units=m +no_defs")
+                cases.append(xcrs_case(rng, gspecs[0], custom, custom=True))
+        for k in range(n):
+            cases.append(xcrs_case(rng, gspecs[k % len(gspecs)], rspecs[(k // 2) % len(rspecs)]))
+        crshist.perturb(hist, specs)
+        for args in cases:
+            run_after(hist, specs, "enclosing_xcrs", *args)
+        if "churn" in hist:
+            run_after(hist, specs, "enclosing_many_crs", gspecs[0], 160 if tier == "quick" else 300, rng.randrange(1000))
 
 
 def search(out, tier):
@@ -765,6 +923,7 @@ def search(out, tier):
     for i in range(20 if tier == "quick" else 200):
         pts = [[dy(rng, 0, 400, 2), dy(rng, 0, 400, 2)] for _ in range(rng.choice([1, 3, 4]))]
         run("enclosing", list(utm), 2, [5, 5], pts, 1)
+    xcrs_search(out, tier, rng, run, found)
     for i in range(200 if tier == "quick" else 2000):
         base, _ = BB[i % len(BB)]
         p = [dy(rng, -5, 5, 4), dy(rng, -5, 5, 4)]
